@@ -4,13 +4,16 @@ import json, os, re, glob
 V = os.path.dirname(os.path.abspath(__file__))
 lines = []
 lines.append("### Agent-seeded changes (independent sub-agents given only the property text)\n")
-lines.append("| seed | property | needs to manifest | static check | rules that fire |")
-lines.append("|---|---|---|---|---|")
+lines.append("| seed | property | needs to manifest | first run | now | rules that fire |")
+lines.append("|---|---|---|---|---|---|")
 for d in sorted(glob.glob(os.path.join(V, "seeded", "*", "meta.json"))):
     m = json.load(open(d))
     name = os.path.basename(os.path.dirname(d))
     fired = sorted({re.sub(r" \[.*", "", f.replace("FAILED ", "")) for f in m.get("rules_fired", [])})
-    lines.append(f"| `{name}` | {m['property']} | {m.get('needs_to_manifest','')[:160]} | "
+    fr = m.get("first_run") or ("missed; rule added afterwards" if any("added after" in f for f in m.get("rules_fired", []))
+                               else "detected")
+    fr = "missed → rule added" if fr.startswith("missed") else "detected"
+    lines.append(f"| `{name}` | {m['property']} | {m.get('needs_to_manifest','')[:160]} | {fr} | "
                  f"{'**detected**' if m.get('detected_by_static_check') else 'missed (outside the decided clauses)'} | "
                  f"{', '.join(fired[:3])} |")
 lines.append("")
